@@ -83,10 +83,14 @@ def mkdom(spec):
         return ift.DomainTuple.make(ift.RGSpace((spec[1], spec[2])))
     if k == "unun":
         return ift.DomainTuple.make((ift.UnstructuredDomain(spec[1]), ift.UnstructuredDomain(spec[2])))
+    if k == "multi":
+        return ift.MultiDomain.make({kk: mkdom(v) for kk, v in spec[1].items()})
     raise ValueError(k)
 
 
 def domsize(spec):
+    if spec[0] == "multi":
+        return sum(domsize(v) for v in spec[1].values())
     return spec[1] if spec[0] in ("un", "rg") else spec[1] * spec[2]
 
 
@@ -524,7 +528,48 @@ def _icov(spec, dom, n, sdt, cplx_ok):
     raise ValueError(k)
 
 
+def _multi_rep(lay, vals):
+    out = []
+    for k, sub, ofs, sz, c in lay.parts:
+        a = nx.arr(vals[k])
+        out.append(crep(a) if c else np.asarray(a, dtype=np.float64).reshape(-1))
+    return np.concatenate(out)
+
+
+def leaf_gauss_multi(sp):
+    """GaussianEnergy on a MultiDomain: data MultiField / None, inverse covariance None / scaling / diagonal"""
+    dom = mkdom(sp["dom"])
+    cplx = bool(sp["cplx"])
+    dt = np.complex128 if cplx else np.float64
+    lay = Layout(dom, cplx)
+    data = None
+    if sp["data"] is not None:
+        data = ift.MultiField.from_dict(
+            {k: ift.makeField(dom[k], np.array(nx.arr(sp["data"][k]).astype(dt).reshape(dom[k].shape))) for k in dom.keys()}, dom)
+    cl = ["multidomain", "complex" if cplx else "real", "data" if data is not None else "data_None"]
+    ic = sp["icov"]
+    sdt = _sdt(sp["sdt"], cplx)
+    if ic is None:
+        E = ift.GaussianEnergy(domain=dom, sampling_dtype=dt) if data is None else ift.GaussianEnergy(data=data)
+        prec = {k: np.ones(dom[k].size) for k in dom.keys()}
+        cl.append("icov_None")
+    elif ic[0] == "scal":
+        E = ift.GaussianEnergy(data=data, inverse_covariance=ift.ScalingOperator(dom, float(ic[1]), sdt))
+        prec = {k: float(ic[1]) * np.ones(dom[k].size) for k in dom.keys()}
+        cl.append("icov_scal")
+    else:
+        prec = {k: np.array(ic[1][k], dtype=np.float64) for k in dom.keys()}
+        mf = ift.MultiField.from_dict({k: ift.makeField(dom[k], prec[k].reshape(dom[k].shape)) for k in dom.keys()}, dom)
+        E = ift.GaussianEnergy(data=data, inverse_covariance=ift.makeOp(mf, sampling_dtype=sdt))
+        cl.append("icov_diag")
+    pr = np.concatenate([np.tile(prec[k], 2 if c else 1) for k, _, _, _, c in lay.parts])
+    drep = _multi_rep(lay, sp["data"]) if data is not None else np.zeros(lay.size)
+    return Leaf(E, GaussOra(np.diag(pr), drep), lay, cl)
+
+
 def leaf_gauss(sp):
+    if sp["dom"][0] == "multi":
+        return leaf_gauss_multi(sp)
     dom = mkdom(sp["dom"])
     n = dom.size
     cplx = bool(sp["cplx"])
@@ -1033,6 +1078,8 @@ def _leaf_rep(lf, x):
     if isinstance(lf.ora, CategoricalOra):
         w = np.array(x["w"], dtype=np.float64).reshape(lf.ora.shape)
         return (w / w.sum(axis=lf.ora.axis, keepdims=True)).reshape(-1)
+    if lf.lay.multi:
+        return _multi_rep(lf.lay, x)
     a = nx.arr(x)
     return crep(a) if lf.lay.parts[0][4] else np.asarray(a, dtype=np.float64).reshape(-1)
 
@@ -1054,8 +1101,9 @@ def check_leaf(rec):
             cl.append("invgamma:alt_density_checked")
     if isinstance(lf.ora, VCGOra):
         cl += _vcg_expectation(lf, v1, info)
-    cl.append("npix%d" % lf.lay.parts[0][3])
-    return dict(nontrivial=lf.lay.parts[0][3] >= 2, classes=cl)
+    npix = sum(p[3] for p in lf.lay.parts) if rec["leaf"]["fam"] != "vcg" else lf.lay.parts[0][3]
+    cl.append("npix%d" % npix)
+    return dict(nontrivial=npix >= 2, classes=cl)
 
 
 _GH = np.polynomial.hermite_e.hermegauss(3)
@@ -1155,7 +1203,17 @@ def _icov_st(draw, n, cplx, depth=0):
 
 
 @st.composite
-def gauss_leaf(draw, dom=None, cplx=None, maxn=4):
+def gauss_leaf(draw, dom=None, cplx=None, maxn=4, multi_ok=False):
+    if multi_ok and dom is None and draw(st.integers(0, 5)) == 0:
+        keys = draw(st.sampled_from([["a", "b"], ["x", "b", "y"], ["k"]]))
+        doms = {k: draw(dom_st(2)) for k in keys}
+        c = draw(st.booleans())
+        pos = S.dyadic_nz(0.25, 4, 8, signed=False)
+        data = draw(st.one_of(st.none(), st.fixed_dictionaries({k: S.vec(domsize(doms[k]), _num(c)) for k in keys})))
+        icov = draw(st.one_of(st.none(), st.builds(lambda v: ["scal", v], pos),
+                              st.builds(lambda v: ["mdiag", v],
+                                        st.fixed_dictionaries({k: S.vec(domsize(doms[k]), pos) for k in keys}))))
+        return {"fam": "gauss", "dom": ["multi", doms], "cplx": c, "data": data, "icov": icov, "sdt": draw(st.booleans())}
     dom = dom or draw(dom_st(maxn))
     n = domsize(dom)
     if cplx is None:
@@ -1239,6 +1297,8 @@ def params_st(leaf):
     fam = leaf["fam"]
     n = domsize(leaf["dom"])
     if fam == "gauss":
+        if leaf["dom"][0] == "multi":
+            return st.fixed_dictionaries({k: S.vec(domsize(d), _num(leaf["cplx"])) for k, d in leaf["dom"][1].items()})
         return S.vec(n, _num(leaf["cplx"]))
     if fam == "poisson":
         return S.vec(n, _dy(0.125, 20, 8))
@@ -1262,7 +1322,7 @@ LEAF_ST = {"gauss": gauss_leaf, "poisson": poisson_leaf, "bernoulli": bernoulli_
 def leaf_recipes(fam):
     @st.composite
     def rec(draw, tier):
-        leaf = draw(LEAF_ST[fam]())
+        leaf = draw(gauss_leaf(multi_ok=True)) if fam == "gauss" else draw(LEAF_ST[fam]())
         return {"leaf": leaf, "x": draw(params_st(leaf)), "x2": draw(params_st(leaf))}
     return rec
 
@@ -1618,12 +1678,13 @@ def _nt(what):
 
 
 SUBS = [
-    Sub(name="oracle_selftest", check=check_selftest, cases=selftest_cases, shards=1,
+    Sub(name="oracle_selftest", check=check_selftest, cases=selftest_cases, shards=4,
         rule="fixed list: the closed-form Fisher matrix of every family against the sum / integral of "
              "(numerical score)^2 under the scipy pdf (a mismatch is a harness error, not a violation)"),
     Sub(name="gaussian", check=check_leaf, strategy=leaf_recipes("gauss"), quick=480, thorough=12000, shards=3,
         rule=_nt("GaussianEnergy with data None/real/complex and inverse covariance None / ScalingOperator / "
-                 "DiagonalOperator / SandwichOperator (real or complex bun, nested cheese)")),
+                 "DiagonalOperator / SandwichOperator (real or complex bun, nested cheese); 1-D, 2-D, two-space and "
+                 "MultiDomain (1-3 keys) domains")),
     Sub(name="poisson", check=check_leaf, strategy=leaf_recipes("poisson"), quick=300, thorough=8000, shards=2,
         rule=_nt("counts 0..20, lambda in [1/8, 20]")),
     Sub(name="bernoulli", check=check_leaf, strategy=leaf_recipes("bernoulli"), quick=300, thorough=8000, shards=2,
